@@ -25,11 +25,17 @@ def cases(tier, seed):
             # classification sub-workload
             tn = rng.choice([None, 1e-3, 0.1])
             tol = 2.220446049250313e-19 if tn is None else float(tn)
-            cls = str(rng.choice(["zero", "half", "double", "big", "equal"]))
+            cls = str(rng.choice(["zero", "half", "double", "big", "equal", "ulp", "ulp"]))
             if cls == "equal":
                 tn, tol = 0.125, 0.125  # exactly representable: |y1-y2| == tol_noise is NOT 'more than'
-            diff = {"zero": 0.0, "half": 0.5 * tol, "double": 2.0 * tol, "big": 1.0, "equal": tol}[cls]
+            diff = {"zero": 0.0, "half": 0.5 * tol, "double": 2.0 * tol, "big": 1.0, "equal": tol, "ulp": "ulp"}[cls]
             opts = {} if tn is None else {"tol_noise": float(tn)}
+            if cls == "ulp":
+                # the repeat differs by ONE unit in the last place of the value: far above the default tol_noise
+                # (eps * tol_fun = 2.2e-19) for |value| > 2e-3, below it for tiny values; with a user tol_fun the
+                # documented default scales with it
+                opts = {} if rng.random() < 0.6 else {"tol_fun": float(rng.choice([1e-6, 0.1, 1.0]))}
+                tol = 2.220446049250313e-16 * float(opts.get("tol_fun", 1e-3))
             spec = gen.make_spec(rng, D=D, geom=str(rng.choice(["lin", "log", "unb"])), x0mode=str(rng.choice(["in", "none"])),
                                  land=("const" if cls == "equal" else str(rng.choice(["quad", "sphere", "l1"]))), where="in", mode="det", options=opts, max_fun_evals=45)
             if cls == "equal":
@@ -62,7 +68,11 @@ def run_case(case):
         def fun(x):
             st["n"] += 1
             v = base(x)
-            return v + j["diff"] if st["n"] == 2 else v
+            if st["n"] != 2:
+                return v
+            if j["diff"] == "ulp":
+                return float(np.nextafter(v, np.inf))
+            return v + j["diff"]
 
         P.fun = fun
         P.mode = "auto" if j["diff"] != 0 else "auto"
@@ -85,7 +95,7 @@ def summarize(records, tier, seed):
             nt.add((s["noise"]["mode"], s["options"].get("noise_final_samples"), s["D"], s["geom"], int(np.floor(np.log10(max(s["noise"]["sigma"], 1e-12))))))
     cnt = C.count_sum(records, "C05.")
     extra = {"events_checked": cnt, "status": C.status_hist(records),
-             "classification_cases": {c: sum(1 for r in records if (r.get("jitter") or {}).get("cls") == c) for c in ("zero", "half", "double", "big", "equal")},
+             "classification_cases": {c: sum(1 for r in records if (r.get("jitter") or {}).get("cls") == c) for c in ("zero", "half", "double", "big", "equal", "ulp")},
              "classified_stochastic": sum(1 for r in records if r.get("jitter") and str(r.get("target_type", "")).startswith("stochastic")),
              "runs_with_final_sampling": sum(1 for r in records if (r.get("n_final") or 0) >= 1),
              "aborts_by_other_defects": C.other_property_aborts(records, "C05")}
